@@ -75,7 +75,11 @@ class MarshalRoles:
             if proc is None:
                 continue
             sends = [n for n in walk_no_nested(f) if isinstance(n, ast.Call) and norm(n.func) == f"{proc}.send"]
-            if sends:
+            # the pump is the driver that feeds the processor from an iterator over one of its own parameters
+            fparams = [a.arg for a in f.args.args]
+            feeds = [n for n in walk_no_nested(f) if isinstance(n, ast.Call) and call_name(n) == "iter" and len(n.args) == 1
+                     and any(isinstance(x, ast.Name) and x.id in fparams for x in ast.walk(n.args[0]))]
+            if sends and feeds:
                 cands.append((f, proc, sends))
         if len(cands) != 1:
             raise AnalysisError(f"role `pump` has {len(cands)} bearers in {self.mod.relpath}")
